@@ -32,8 +32,8 @@ func (m *Money) UnmarshalGQL(v any) error {
 
 // Point is a hand-written input model.
 type Point struct {
-	X int
-	Y int
+	X     int
+	Y     int
 	Label *string
 }
 
